@@ -187,9 +187,10 @@ ShapeOK == \A s \in 1..n :
              /\ father[s] = 0 => (anc[s] = 0 /\ vals[s] = Filter(vals[s]))
              /\ father[s] # 0 => (lim[s] = base /\ hc[s] = NOHASH)
              /\ Depth(s) <= anc[s]
-\* the purpose of MAX_ANCESTORS: chains are bounded by the largest limit in use (NONE = 0)
-MaxLim == LET S == RootLims \cup BaseLims IN CHOOSE m \in S : \A k \in S : k <= m
-ChainBounded == \A s \in 1..n : anc[s] <= MaxLim
+\* the purpose of MAX_ANCESTORS: a state is linked to a father only within the father's limit,
+\* so no chain is longer than the largest limit in use
+ChainBounded == \A s \in 1..n : father[s] # 0 =>
+                   (lim[father[s]] # NONE /\ Depth(s) <= anc[s] /\ anc[s] <= lim[father[s]])
 
 \* states are immutable as maps: no call changes what an existing state answers
 Immutable == [][\A s \in 1..n : map'[s] = map[s]]_vars
